@@ -65,11 +65,11 @@ SPECS = {
     thorough=[S('T1', 3, M_T, O_TALL, W), S('T2', 3, M_TP, O_TALL, W), S('T3', 4, M_T, O_TALL), S('T3h', 4, M_T, O_TALL), S('T4', 2, M_T, O_TALL, W), S('T5', 2, M_TP, O_TALL, W), S('T6', 3, M_TP, O_TALL, W),
               S('P3', 3, M_P, O_PALL, W), S('P5', 2, M_P, O_PALL, W), S('P2', 1, M_P | mf('PAYLOAD'), O_PALL, W)]),
  'C02': dict(
-    quick=[S('T1', 2, M_T, O_T), S('T2', 2, M_TP, O_T | og('PAYLOAD', 'MANUAL')), S('T3', 3, M_T, O_T), S('P5', 1, M_P, O_P), S('T4', 1, M_T, O_T)],
-    thorough=[S('T1', 3, M_T, O_T, W), S('T8', 3, M_T, O_T, W), S('T2', 3, M_TP2, O_T | og('PAYLOAD', 'PAYLOAD2', 'MANUAL'), W), S('T3', 4, M_T, O_T), S('T4', 2, M_T, O_T, W), S('T6', 3, M_TP, O_T | og('PAYLOAD'), W), S('P5', 2, M_PG, O_P, W), S('P1', 1, M_P0, O_P, W)]),
+    quick=[S('T1', 2, M_T, O_T), S('T2', 2, M_TP, O_T | og('PAYLOAD', 'MANUAL')), S('T3', 3, M_T, O_T), S('P5', 1, M_P, O_P), S('T4', 1, M_T, O_T), S('I2', 2, M_T | mf('INJ_DECIDE'), og('CORE'))],
+    thorough=[S('I1', 2, M_T | mf('INJ_DECIDE'), og('CORE'), W), S('T1', 3, M_T, O_T, W), S('T8', 3, M_T, O_T, W), S('T2', 3, M_TP2, O_T | og('PAYLOAD', 'PAYLOAD2', 'MANUAL'), W), S('T3', 4, M_T, O_T), S('T4', 2, M_T, O_T, W), S('T6', 3, M_TP, O_T | og('PAYLOAD'), W), S('P5', 2, M_PG, O_P, W), S('P1', 1, M_P0, O_P, W)]),
  'C03': dict(
-    quick=[S('T1', 3, M_G, O_T), S('T2', 3, M_G | mf('PAYLOAD'), O_T | og('PAYLOAD', 'MANUAL', 'REPLAY', 'SERIAL')), S('T3', 3, M_G, O_T), S('T8', 3, M_G, og('CORE')), S('T1', 2, M_T, O_T | og('REPLAY'))],
-    thorough=[S('T1', 4, M_G, O_T, W), S('T8', 4, M_G, og('CORE'), W), S('T2', 4, M_G | mf('PAYLOAD'), O_T | og('PAYLOAD', 'MANUAL', 'REPLAY', 'SERIAL'), W), S('T3', 4, M_G, O_T), S('T4', 3, M_G, og('CORE'), W), S('T1', 3, M_T, O_T | og('REPLAY'), W), S('T5', 3, M_G | mf('PAYLOAD'), O_T | og('PAYLOAD', 'MANUAL', 'REPLAY', 'SERIAL'), W)]),
+    quick=[S('T1', 3, M_G, O_T), S('T2', 3, M_G | mf('PAYLOAD'), O_T | og('PAYLOAD', 'MANUAL', 'REPLAY', 'SERIAL')), S('T3', 3, M_G, O_T), S('T8', 3, M_G, og('CORE')), S('T1', 2, M_T, O_T | og('REPLAY')), S('I1', 2, M_G | mf('INJ_DECIDE'), og('CORE')), S('I2', 2, M_G | mf('INJ_DECIDE'), og('CORE'))],
+    thorough=[S('T1', 4, M_G, O_T, W), S('T8', 4, M_G, og('CORE'), W), S('T2', 4, M_G | mf('PAYLOAD'), O_T | og('PAYLOAD', 'MANUAL', 'REPLAY', 'SERIAL'), W), S('T3', 4, M_G, O_T), S('T4', 3, M_G, og('CORE'), W), S('T1', 3, M_T, O_T | og('REPLAY'), W), S('T5', 3, M_G | mf('PAYLOAD'), O_T | og('PAYLOAD', 'MANUAL', 'REPLAY', 'SERIAL'), W), S('I1', 3, M_G | mf('INJ_DECIDE'), og('CORE'), W), S('I2', 3, M_G | mf('INJ_DECIDE'), og('CORE'), W)]),
  'C04': dict(
     quick=[S('S1', 0, M_G, og('CORE'), W, ['--strategies']), S('S2', 0, M_G, og('CORE'), W, ['--strategies']), S('S3', 0, M_G, og('CORE'), W, ['--strategies']), S('S5', 0, M_G, og('CORE'), W, ['--strategies']), S('S255', 0, M_G, og('CORE'), W, ['--strategies']),
            S('T1', 3, M_G, og('CORE')), S('T3', 3, M_T, og('CORE'))],
@@ -79,7 +79,7 @@ SPECS = {
     quick=[S('T1', 2, M_T, O_T), S('T2', 2, M_TP, O_T | og('MANUAL')), S('T3', 3, M_T, O_T), S('P3', 2, M_P, O_P | og('REACT', 'QUERY')), S('P5', 1, M_P, O_P | og('REACT', 'QUERY')), S('T4', 1, M_T, O_T)],
     thorough=[S('T1', 3, M_T, O_T, W), S('T2', 3, M_TP, O_T | og('MANUAL'), W), S('T3', 4, M_T, O_T), S('T4', 2, M_T, O_T, W), S('P3', 3, M_P, O_P | og('REACT', 'QUERY'), W), S('P5', 2, M_P, O_P | og('REACT', 'QUERY'), W), S('I1', 2, M_T, O_T, W)]),
  'C06': dict(
-    quick=[S('T1', 2, M_T, O_T | og('REPLAY')), S('T2', 2, M_TP, O_T | og('PAYLOAD', 'MANUAL', 'REPLAY', 'SERIAL')), S('T9', 2, M_TP, O_T | og('PAYLOAD')), S('T3', 3, M_T, O_T), S('P5', 1, M_PG, O_P | og('REACT', 'QUERY')), S('T4', 1, M_T, O_T)],
+    quick=[S('T1', 2, M_T, O_T | og('REPLAY')), S('T2', 2, M_TP, O_T | og('PAYLOAD', 'MANUAL', 'REPLAY', 'SERIAL')), S('T9', 2, M_TP, O_T | og('PAYLOAD')), S('T3', 3, M_T, O_T), S('P5', 1, M_PG, O_P | og('REACT', 'QUERY')), S('T4', 1, M_T, O_T), S('I1', 1, M_T | mf('INJ_DECIDE'), O_T)],
     thorough=[S('T1', 3, M_T, O_T | og('REPLAY'), W), S('T2', 3, M_TP, O_T | og('PAYLOAD', 'MANUAL', 'REPLAY', 'SERIAL'), W), S('T9', 3, M_TP, O_T | og('PAYLOAD'), W), S('T3', 4, M_T, O_T), S('T4', 2, M_T, O_T, W), S('T5', 2, M_TP, O_TALL, W), S('P5', 2, M_PG, O_P | og('REACT', 'QUERY'), W), S('I1', 2, M_T | mf('INJ_DECIDE'), O_T, W)]),
  'C07': dict(
     quick=[S('T2', 2, M_TP2, O_T | og('PAYLOAD', 'PAYLOAD2', 'MANUAL')), S('T6', 2, M_TP2, O_T | og('PAYLOAD', 'PAYLOAD2')), S('T9', 2, M_TP2, O_T | og('PAYLOAD', 'PAYLOAD2')), S('P7', 1, M_P | mf('PAYLOAD'), O_P | og('PAYLOAD'))],
